@@ -2313,7 +2313,14 @@ impl PeerConnection {
         };
 
         let mut state_rx = dtls_clone.subscribe_state();
+        let mut ice_state_rx = self.inner.ice_transport.subscribe_state();
         loop {
+            if is_ice_failed_or_closed(*ice_state_rx.borrow_and_update()) {
+                dtls_clone.close();
+                return Err(RtcError::Internal(
+                    "ICE failed or closed during the DTLS handshake".into(),
+                ));
+            }
             let state = state_rx.borrow().clone();
             match state {
                 crate::transports::dtls::DtlsState::Connected(_, profile_opt) => {
@@ -2387,6 +2394,9 @@ impl PeerConnection {
                      return Err(RtcError::Internal("DataChannel listener stopped unexpectedly".into()));
                 }
                 res = state_rx.changed() => {
+                    if res.is_err() { break; }
+                }
+                res = ice_state_rx.changed() => {
                     if res.is_err() { break; }
                 }
                 res = pair_rx.changed() => {
